@@ -26,6 +26,8 @@ import (
 func init() {
 	register(&Rule{ID: "OM-model", Min: 3 * 13, Run: runOMModel,
 		Doc: "ordered maps = reference insertion-ordered map: for every reachable state over 3 keys x 2 values, every method (Set, Update, Get, GetValue, Has, Len, Delete, Filter, Find, Each, EachSafe, Map, MarshalJSON), every key/value argument and every callback verdict, the interpreted method returns what the reference returns, invokes the callback on exactly the reference's entries in the reference's order, and leaves data/order equal to the reference's state (order duplicate-free, same key set as data)"})
+	register(&Rule{ID: "OM-model-deep", Min: 3 * 13, Thorough: true, Run: func(c *load.Ctx, r *report.RuleResult) { runOMModelN(c, r, 4) },
+		Doc: "OM-model over 4 keys x 2 values"})
 	register(&Rule{ID: "OM-lock", Min: 3 * 13, Run: runOMLock,
 		Doc: "ordered maps: every exported method holds m.mx while it touches data/order (write lock when the state may change), and releases it on every exit"})
 }
@@ -128,7 +130,14 @@ type omModel struct {
 
 var omMethods = []string{"Set", "Update", "GetValue", "Get", "Has", "Len", "Delete", "Filter", "Find", "Each", "EachSafe", "Map", "MarshalJSON"}
 
+// omKeys is the number of distinct keys the model ranges over (3 quick, 4 in the deep variant).
+var omKeysDefault = 3
+
 func newOMModel(c *load.Ctx, t omType) (*omModel, []string) {
+	return newOMModelN(c, t, omKeysDefault)
+}
+
+func newOMModelN(c *load.Ctx, t omType, nkeys int) (*omModel, []string) {
 	m := &omModel{c: c, t: t, cfg: newPEConfig(c), meth: map[string]*ssa.Function{}}
 	var missing []string
 	for _, n := range omMethods {
@@ -140,9 +149,13 @@ func newOMModel(c *load.Ctx, t omType) (*omModel, []string) {
 		m.meth[n] = f
 	}
 	if b, ok := t.keyT.Underlying().(*types.Basic); ok && b.Info()&types.IsString != 0 {
-		m.keys = []pe.Value{"a", "b", "c"}
+		for i := 0; i < nkeys; i++ {
+			m.keys = append(m.keys, string(rune('a'+i)))
+		}
 	} else {
-		m.keys = []pe.Value{int64(0), int64(1), int64(2)}
+		for i := 0; i < nkeys; i++ {
+			m.keys = append(m.keys, int64(i))
+		}
 	}
 	m.vals = []pe.Value{pe.NewSym("x", t.valT), pe.NewSym("y", t.valT)}
 	for _, o := range pe.ExploreFn(m.cfg, func(in *pe.Interp) pe.Value { return in.Zero(t.valT) }) {
@@ -492,7 +505,9 @@ func (m *omModel) exploreOM(r *report.RuleResult, check func(run omRun, ref omRe
 	return
 }
 
-func runOMModel(c *load.Ctx, r *report.RuleResult) {
+func runOMModel(c *load.Ctx, r *report.RuleResult) { runOMModelN(c, r, omKeysDefault) }
+
+func runOMModelN(c *load.Ctx, r *report.RuleResult, nkeys int) {
 	maps := findOrderedMaps(c)
 	if len(maps) == 0 {
 		r.Unk("anchor|ordered maps", "", "no type with the ordered-map shape (data map, order slice, mx sync.RWMutex) found")
@@ -500,7 +515,7 @@ func runOMModel(c *load.Ctx, r *report.RuleResult) {
 	}
 	for _, t := range maps {
 		tname := omTypeName(t)
-		m, missing := newOMModel(c, t)
+		m, missing := newOMModelN(c, t, nkeys)
 		for _, meth := range missing {
 			r.Unk("method|"+tname+"."+meth, c.Pos(t.named.Obj().Pos()), "method named by the property not found on the ordered map")
 		}
